@@ -142,7 +142,7 @@ def model_check(ctx, spec, cfgname, workers=NCPU, timeout=1800, expect_ok=True):
     return out, errs
 
 
-def apalache_inductive(ctx, spec, init='Init', indinit='IndInit', inv='IndInv', timeout=180):
+def apalache_inductive(ctx, spec, init='Init', indinit='IndInit', inv='IndInv', timeout=180, what='unbounded payload lengths'):
     """unbounded lemma: Init => Inv (length 0) and IndInit /\\ Next => Inv' (length 1), discharged by Apalache"""
     d = ctx.path('apa_%s_%d' % (spec, next(_CTR)))
     os.makedirs(d)
@@ -159,8 +159,8 @@ def apalache_inductive(ctx, spec, init='Init', indinit='IndInit', inv='IndInv', 
         if not ok:
             raise Machinery('Apalache could not discharge %s/%s (length %d): %s' % (spec, inv, length, p.stdout[-1500:]))
     shutil.rmtree(d, ignore_errors=True)
-    ctx.stats.setdefault('lemmas', []).append({'spec': spec, 'tool': 'apalache-mc 0.58 (inductive invariant, unbounded)', 'obligations': res})
-    log('LEMMA %s: inductive invariant %s discharged by Apalache (unbounded payload lengths)' % (spec, inv))
+    ctx.stats.setdefault('lemmas', []).append({'spec': spec, 'tool': 'apalache-mc 0.58 (inductive invariant: %s)' % what, 'obligations': res})
+    log('LEMMA %s: inductive invariant %s discharged by Apalache (%s)' % (spec, inv, what))
 
 
 def parse_tagged(out, tag):
